@@ -302,6 +302,15 @@ class Program:
             ("tp>", (fp, fq), lambda: fp > fq),
             ("tp>=", (fp, fq), lambda: fp >= fq),
             ("tp.hash", (p,), lambda: hash(p)),
+            ("oper.strftime", (aq,), lambda: self.oper().strftime(
+                aq, rng.choice(("%A %d %b %Y", "%a", "%Y-%m-%d %H:%M:%S",
+                                "%y%m%d %p")))),
+            ("oper.date_format", (fp,), lambda: self.oper().date_format(
+                rng.choice(("%d %B", "CCYY-DDD", "%s")), fp)),
+            ("oper.date_shift", (fp,), lambda: self.oper().date_shift(
+                fp, "P1M")),
+            ("oper.date_diff", (fp, fq), lambda: self.oper().date_diff(
+                fp, fq)),
             ("tp.str", (p,), lambda: str(p)),
             ("tp.str-override", (p,), lambda: p.__str__(
                 override_custom_dump_format=True)),
@@ -402,6 +411,13 @@ class Program:
             if all(o is not None for o in operands):
                 return name, operands, thunk
 
+    def oper(self):
+        """one long-lived DateTimeOperator (its constructor selects the
+        Gregorian calendar, which is the mode of this check)"""
+        if getattr(self, "_oper", None) is None:
+            self._oper = self.repo.datetimeoper.DateTimeOperator()
+        return self._oper
+
     def rare_seeds(self):
         """states ordinary generation rarely reaches: a negative year with no
         expanded digits (str() of it raises OverflowError), year 0, 1 and 3
@@ -461,7 +477,9 @@ class Program:
                         ("to_cal", lambda o=o: o.to_calendar_date()),
                         ("epoch", lambda o=o: o.seconds_since_unix_epoch),
                         ("copy+0", lambda o=o: o + self.repo.Duration()),
-                        ("strftime", lambda o=o: o.strftime("%Y %j %s"))]
+                        ("strftime", lambda o=o: o.strftime("%Y %j %s")),
+                        ("oper.strftime", lambda o=o: self.oper().strftime(
+                            o, "%A %d %b %Y"))]
             elif kind in ("Duration", "TimeZone"):
                 ops += [("to_days", lambda o=o: o.to_days()),
                         ("secs", lambda o=o: o.get_seconds()),
